@@ -764,7 +764,23 @@ func (g *Gen) builtin(st *State, b *ssa.Builtin, c *ssa.CallCommon, rt types.Typ
 		g.note("map", "delete on map not modelled")
 		return TupleV{}
 	case "clear":
-		g.note("builtin", "clear not modelled: heaps havocked")
+		if sv, ok := args[0].(SliceV); ok {
+			// zero the elements [off, off+len) of the block
+			for _, lf := range g.leaves(sv.Elem) {
+				key := heapKey(typeKey(sv.Elem), nil, lf.suffix)
+				sort := nestSort(2, lf.sort)
+				h := g.heapTerm(st, key, sort)
+				nb := g.fresh("blk", "(Array Int "+lf.sort+")")
+				body := fmt.Sprintf("(= (select %s i) (ite (and (<= %s i) (< i (+ %s %s))) %s (select (select %s %s) i)))", nb, sv.Off, sv.Off, sv.Len, zeroOfSort(g, lf.sort), h, sv.Ref)
+				g.emit(fmt.Sprintf("(assert (forall ((i Int)) (! %s :pattern ((select %s i)))))", body, nb))
+				if g.frameOn && !g.discovery {
+					g.checkFrameRange(st, key, sv.Ref, sv.Off, "(+ "+sv.Off+" "+sv.Len+")", "(< 0 "+sv.Len+")")
+				}
+				g.setHeap(st, key, sort, "(store "+h+" "+sv.Ref+" "+nb+")")
+			}
+			return TupleV{}
+		}
+		g.note("builtin", "clear of a map not modelled: heaps havocked")
 		g.havocAll(st)
 		return TupleV{}
 	case "print", "println", "close":
